@@ -79,18 +79,57 @@ def problems():
                    lambda t, y, p: np.array([y[1] - y[0], -y[0] * y[1]]),
                    lambda t, y, p: csc_array(np.array([[-1.0, 1.0], [-y[1], -y[0]]])), {}),
               np.array([1.0, 1.0]), lambda t: np.array([1 / (1 + t), 1 / (1 + t)]), [0, 1]))
+    # P6: residual of size 1 and explicit time dependence with dF/dt(t0) = 1 from t0 = 0: the time derivative the method needs is
+    #     taken by a forward difference, whose increment has to resolve F there   y' = -(y - 1 - sin t) + cos t,  y = 1 + sin t
+    P.append(("ode y'=-(y-1-sin t)+cos t from t0=0", nDAE(csc_array(np.array([[1.0]])),
+                                                         lambda t, y, p: -(y - 1.0 - np.sin(t)) + np.cos(t),
+                                                         lambda t, y, p: csc_array(np.array([[-1.0]])), {}),
+              np.array([1.0]), lambda t: np.array([1.0 + np.sin(t)]), [0]))
+    # P7: the same forcing in the algebraic equation of an index-1 DAE   x' = -x + z,  0 = z - (1 + sin t + cos t),  x = 1 + sin t
+    P.append(("dae x'=-x+z, 0=z-(1+sin t+cos t) from t0=0",
+              nDAE(csc_array((np.array([1.0]), (np.array([0]), np.array([0]))), shape=(2, 2)),
+                   lambda t, y, p: np.array([-y[0] + y[1], y[1] - (1.0 + np.sin(t) + np.cos(t))]),
+                   lambda t, y, p: csc_array(np.array([[-1.0, 1.0], [0.0, 1.0]])), {}),
+              np.array([1.0, 2.0]), lambda t: np.array([1.0 + np.sin(t), 1.0 + np.sin(t) + np.cos(t)]), [0]))
     return P
 
 
-def slope(hs, es):
-    pts = [(np.log2(h), np.log2(e)) for h, e in zip(hs, es) if e > 3e-13]
+def fixed_grid_failures():
+    """a fixed-step run covers [t0, tend]: it ends at tend (steps that do not divide the span exactly in floating point or at all
+    included), with the number of steps the interval implies, and a dense request gets all its nodes"""
+    from Solverz import Rodas, Opt
+    out = []
+    name, dae, y0, exact, comps = problems()[0]
+    for (a, b, h) in ((0.0, 2.0, 0.1), (0.0, 2.0, 0.05), (0.0, 1.0, 0.3), (0.5, 1.75, 0.025), (-1.0, 1.0, 0.1), (0.0, 1.0, 0.125)):
+        for dense in (False, True):
+            nn = int(np.ceil((b - a) / h - 1e-6))
+            tspan = [a, b] if not dense else list(np.linspace(a, b, 11))
+            case = dict(problem=name, tspan=[a, b], nodes=len(tspan), h=h, scheme="rodas4")
+            try:
+                sol = quiet(Rodas, dae, tspan, exact(a), Opt(fix_h=True, hinit=h))
+            except Exception as ex:  # noqa
+                out.append((case, f"fixed-step run on [{a}, {b}] with h = {h} ({len(tspan)} nodes) raised {type(ex).__name__}: {str(ex)[:80]}")); continue
+            T = np.asarray(sol.T, dtype=float)
+            if T[-1] != b:
+                out.append((case, f"fixed-step run on [{a}, {b}] with h = {h} ({len(tspan)} nodes) ends at {T[-1]!r} after {sol.stats.nstep} steps"))
+            elif dense and len(T) != len(tspan):
+                out.append((case, f"fixed-step run on [{a}, {b}] with h = {h}: {len(T)} of {len(tspan)} requested nodes returned"))
+            elif sol.stats.nstep != nn:
+                out.append((case, f"fixed-step run on [{a}, {b}] with h = {h} took {sol.stats.nstep} steps, the interval implies {nn}"))
+            elif abs(np.asarray(sol.Y)[-1][0] - exact(b)[0]) > 1e-3:
+                out.append((case, f"fixed-step run on [{a}, {b}] with h = {h}: y(tend) = {np.asarray(sol.Y)[-1][0]!r}, exact {exact(b)[0]!r}"))
+    return out
+
+
+def slope(hs, es, floor=3e-13):
+    pts = [(np.log2(h), np.log2(e)) for h, e in zip(hs, es) if e > floor]
     if len(pts) < 3:
         return None
     x, y = np.array(pts).T
     return float(np.polyfit(x, y, 1)[0])
 
 
-def ladder(scheme, prob, ks, dense_only_ode=True):
+def ladder(scheme, prob, ks, dense_only_ode=True, floor=3e-13):
     from Solverz import Rodas, Opt
     name, dae, y0, exact, comps = prob
     p, q = SCHEMES[scheme]
@@ -110,7 +149,7 @@ def ladder(scheme, prob, ks, dense_only_ode=True):
         e_step.append(float(err[-1]))
         e_dense.append(float(err[1::2].max()))
     return dict(problem=name, scheme=scheme, hs=hs, step_err=e_step, dense_err=e_dense,
-                step_slope=slope(hs, e_step), dense_slope=slope(hs, e_dense), p=p, q=q)
+                step_slope=slope(hs, e_step, floor), dense_slope=slope(hs, e_dense, floor), p=p, q=q)
 
 
 def local_dense_ladder(scheme, prob, ks, t0=0.3):
@@ -205,7 +244,12 @@ def run(rep, tier, seed):
     for prob in problems():
         for scheme in SCHEMES:
             try:
-                r = ladder(scheme, prob, ks)
+                if "from t0=0" in prob[0]:
+                    # dF/dt is a forward difference with a relative increment of sqrt(eps): its noise (1.5e-8 / h per unit of F) puts a
+                    # floor of about 1e-11 under the dense values; the ladder stays above it
+                    r = ladder(scheme, prob, [1, 2, 3, 4, 5], floor=5e-11)
+                else:
+                    r = ladder(scheme, prob, ks)
             except Exception as ex:  # noqa
                 r = dict(problem=prob[0], scheme=scheme, error=f"{type(ex).__name__}: {ex}")
             ladders.append(r)
@@ -221,6 +265,10 @@ def run(rep, tier, seed):
                 msg = judge(r)
                 if msg:
                     fails.append((r, f"{scheme} on {r['problem']}: {msg}"))
+    fg = fixed_grid_failures()
+    rep.cov["fixed_step_grid_runs"] = 12
+    for case, m in fg:
+        fails.append((case, m))
     rep.cov["evaluations"] = len(lines) + len(ladders)
     rep.cov["distinct_nontrivial"] = len(set(lines)) + len(ladders)
     rep.cov["rule"] = ("K: random (scheme, lambda, dt, y0, steps, tau set) on y'=lambda*y with fix_h, all values compared with the Lean stage loop "
